@@ -24,6 +24,8 @@ pub struct Plan {
     pub batch_cases: usize,
     /// start a fresh Nexus after this many batches (the batch query's cost grows with the number of subjects)
     pub rotate_batches: usize,
+    /// the histories of one group must agree with each other (false: groups are only batching units)
+    pub compare_within_group: bool,
 }
 
 #[derive(Default)]
@@ -35,6 +37,7 @@ pub struct Outcome {
     pub groups: u64,
     pub entry_point_checks: u64,
     pub restab_checks: u64,
+    pub order_comparisons: u64,
     pub statuses: BTreeMap<String, u64>,
     /// reference-query summary of the first history of every group (v0 projection)
     pub summaries: Vec<(Case, Summary)>,
@@ -97,7 +100,7 @@ struct Pending {
     cases: Vec<Case>,
 }
 
-/// Checks every projection of one recorded batch; returns per case the digest of the reference query (v0).
+/// Checks every projection of one recorded batch; returns per query and case the digest of the v0 projection.
 fn check_batch(
     world: &mut World,
     batch: &str,
@@ -106,9 +109,9 @@ fn check_batch(
     plan: &Plan,
     with_entry_points: bool,
     out: &mut Outcome,
-) -> (Vec<Option<Digest>>, BTreeMap<String, Obs>) {
+) -> (Vec<Vec<Option<Digest>>>, BTreeMap<String, Obs>) {
     let functional = cases[0].functional;
-    let mut reference: Vec<Option<Digest>> = vec![None; cases.len()];
+    let mut reference: Vec<Vec<Option<Digest>>> = vec![vec![None; cases.len()]; plan.queries.len()];
     let mut reference_obs = BTreeMap::new();
     for (qi, &(at, pol)) in plan.queries.iter().enumerate() {
         let policy = &POLICIES[pol];
@@ -131,8 +134,8 @@ fn check_batch(
                 if let Some(d) = &digest {
                     *out.statuses.entry(d.status.clone()).or_insert(0) += 1;
                 }
-                if qi == 0 && !rival {
-                    reference[c] = digest;
+                if !rival {
+                    reference[qi][c] = digest;
                 }
             }
         }
@@ -250,16 +253,24 @@ pub fn run_groups(tag: &str, groups: &[Vec<Case>], plan: &Plan, deadline: Option
         out.groups += spans.len() as u64;
         let with_entry_points = plan.entry_points_every > 0 && (batch_no - 1) % plan.entry_points_every == 0;
         let (reference, seen) = check_batch(world, &batch, &cases, &recs, plan, with_entry_points, &mut out);
-        let (at, pol) = plan.queries[0];
         for (start, len) in spans {
-            let Some(first) = &reference[start] else { continue };
-            out.summaries.push((cases[start].clone(), first.summary()));
-            for k in start + 1..start + len {
-                let Some(other) = &reference[k] else { continue };
-                let findings = oracle::compare_orders(first, other);
-                push_findings(&mut out.violations, findings, &[&cases[start], &cases[k]], "orders", at, pol, false, &[]);
+            for (qi, &(at, pol)) in plan.queries.iter().enumerate() {
+                let Some(first) = &reference[qi][start] else { continue };
+                if qi == 0 {
+                    out.summaries.push((cases[start].clone(), first.summary()));
+                }
+                for k in start + 1..start + len {
+                    if !plan.compare_within_group {
+                        break;
+                    }
+                    let Some(other) = &reference[qi][k] else { continue };
+                    out.order_comparisons += 1;
+                    let findings = oracle::compare_orders(first, other);
+                    push_findings(&mut out.violations, findings, &[&cases[start], &cases[k]], "orders", at, pol, false, &[]);
+                }
             }
         }
+        let (at, pol) = plan.queries[0];
         // projections of the previous batch must not have moved because this batch was recorded
         if plan.restab {
             if let Some(prev) = previous.take() {
@@ -303,6 +314,7 @@ pub fn replay(doc: &Value) -> Vec<Violation> {
         restab: relation == "restab",
         batch_cases: 10_000,
         rotate_batches: usize::MAX,
+        compare_within_group: true,
     };
     let mut found = Vec::new();
     match relation {
@@ -316,14 +328,12 @@ pub fn replay(doc: &Value) -> Vec<Violation> {
         }
         "restab" => {
             let first = r["first_batch"].as_u64().unwrap_or(1) as usize;
-            let a: Vec<Vec<Case>> = batch[..first].iter().map(|c| vec![c.clone()]).collect();
-            let b: Vec<Vec<Case>> = batch[first..].iter().map(|c| vec![c.clone()]).collect();
+            let groups = vec![batch[..first].to_vec(), batch[first..].to_vec()];
             let plan = Plan {
-                batch_cases: a.len().max(b.len()),
+                batch_cases: 1,
+                compare_within_group: false,
                 ..plan
             };
-            let mut groups = a;
-            groups.extend(b);
             found.extend(run_groups("replay", &groups, &plan, None).violations);
         }
         _ => {
